@@ -129,6 +129,66 @@ impl Prop for C04 {
                 }
             }
         }
+        // operands that are themselves results of a sum, a difference or a cast (their unit has been
+        // through the tool's conversion machinery before it is raised and multiplied)
+        let alt = |u: &str| match u {
+            "m" => Some("km"),
+            "s" => Some("min"),
+            "kg" => Some("g"),
+            "N" => Some("kg*m/s^2"),
+            "J" => Some("N*m"),
+            "km/h" => Some("m/s"),
+            "kJ/kg" => Some("J/kg"),
+            "W" => Some("J/s"),
+            "Pa" => Some("N/m^2"),
+            "l" => Some("dm^3"),
+            "km^2" => Some("m^2"),
+            "ft" => Some("m"),
+            _ => None,
+        };
+        let rs = [("2", "m"), ("3", "kg"), ("0.5", "s"), ("3", "N"), ("2", "kJ/kg")];
+        for (l, u) in QUANT.iter().take(tier.pick(30, QUANT.len())).filter(|(_, u)| *u != "Hz" && *u != "K") {
+            let a = qty(l, u);
+            let mut xs = vec![paren(bin(a.clone(), Op::Add, a.clone())), paren(bin(bin(a.clone(), Op::Add, a.clone()), Op::Sub, a.clone())), paren(crate::refcalc::to(a.clone(), u))];
+            if let Some(t) = alt(u) {
+                xs.push(paren(crate::refcalc::to(a.clone(), t)));
+                xs.push(paren(bin(a.clone(), Op::Add, qty("1", t))));
+            }
+            for x in xs {
+                for n in [2i64, 3, -1, -2] {
+                    let p = bin(x.clone(), Op::Pow, num(&n.to_string()));
+                    emit("carried", &p, sink);
+                    emit("carried", &bin(paren(p.clone()), Op::Add, paren(p.clone())), sink);
+                    for (rl, ru) in rs {
+                        let r = qty(rl, ru);
+                        emit("carried", &bin(p.clone(), Op::Mul, r.clone()), sink);
+                        emit("carried", &bin(p.clone(), Op::Div, r.clone()), sink);
+                        emit("carried", &bin(r.clone(), Op::Mul, p.clone()), sink);
+                        emit("carried", &bin(r.clone(), Op::Div, paren(p.clone())), sink);
+                    }
+                }
+                // and without a power in between
+                for (rl, ru) in rs {
+                    let r = qty(rl, ru);
+                    emit("carried", &bin(x.clone(), Op::Mul, r.clone()), sink);
+                    emit("carried", &bin(r.clone(), Op::Div, x.clone()), sink);
+                }
+            }
+        }
+        // written units whose base dimensions cancel completely but which carry a scale
+        // (min/s = 60, kBq*s = 1000): dimensionless is not the same as unitless
+        for (cl, cu) in [("2", "min/s"), ("2", "kBq*s"), ("2", "kN*s^2/kg*m"), ("3", "h/s"), ("5", "m/ft"), ("2", "Bq*s"), ("3", "mJ/N*m"), ("4", "l/cm^3"), ("2", "kHz*ms")] {
+            let c = qty(cl, cu);
+            for (rl, ru) in [("120", "m"), ("3", "kg"), ("0.5", "s"), ("6", "J"), ("2", "km/h"), ("3", "mA"), ("2", "min/s"), ("7", "")] {
+                let r = if ru.is_empty() { num(rl) } else { qty(rl, ru) };
+                emit("cancelling", &bin(c.clone(), Op::Mul, r.clone()), sink);
+                emit("cancelling", &bin(r.clone(), Op::Mul, c.clone()), sink);
+                emit("cancelling", &bin(c.clone(), Op::Div, r.clone()), sink);
+                emit("cancelling", &bin(r.clone(), Op::Div, c.clone()), sink);
+                emit("cancelling", &bin(bin(paren(c.clone()), Op::Pow, num("2")), Op::Mul, r.clone()), sink);
+                emit("cancelling", &bin(bin(r.clone(), Op::Mul, c.clone()), Op::Div, c.clone()), sink);
+            }
+        }
         // a temperature on an offset scale as a factor: the product / quotient is the product of
         // the operands' SI values with the degree read as an interval or as an absolute
         // temperature - whichever the tool chooses, but the same arithmetic in both operand orders
